@@ -426,6 +426,7 @@ func runCheck(cmd, prop, tier string, seed int, only, dump string, verbose bool)
 		}
 		clauses[k].cs.Instances++
 	}
+	currentGens = gens
 	claims, haveClaims := loadClaims(prop)
 	if !haveClaims {
 		fmt.Println("gvc: no claims file for", prop)
